@@ -20,7 +20,7 @@ TRUSTED = ["hand-written Gallina model coq/Model/Bip32.v of src/keypair/extended
 ASSUMPTIONS = ["group laws of secp256k1 (distributivity of scalar multiplication over addition, G of order exactly n, SEC1 "
                "decode inverts encode) are premises of C08_neuter_commutes / C08_ckd_pub_eq_spec, not proved for the concrete formulas",
                "IL = 0 (refused by the library, valid in BIP32) needs an HMAC-SHA512 preimage and is excluded by hypothesis"]
-EXTRA_TARGETS = ["Proofs/Bip32Kat.vo"]
+EXTRA_TARGETS = ["Proofs/Bip32Kat.vo", "Proofs/ConstsTie.vo"]
 
 P = 2 ** 256 - 2 ** 32 - 977
 N = 0xFFFFFFFFFFFFFFFFFFFFFFFFFFFFFFFEBAAEDCE6AF48A03BBFD25E8CD0364141
